@@ -117,6 +117,7 @@ func init() {
 			{"init-body", "Body initialised on every successful Open path", ruleInitBody},
 			{"nil-guard", "Table.Grid dereferences are nil-guarded", ruleNilGuardGrid},
 			{"typed-nil", "readers whose result becomes an interface value never return (nil, nil)", ruleTypedNil},
+			{"sized-by-row", "a slice sized by one row's cell count is not indexed by a counter over another row's cells without a guard", ruleSizedByRow},
 			{"div-guard", "no integer division or remainder on the Open path has a divisor that can be zero (constant, or kept from zero by dominating comparisons)", ruleDivGuard},
 			{"untrusted-size", "no allocation on the Open path is sized from archive directory fields", ruleUntrustedSize},
 			{"iter-progress", "iterator loops are left when the advancing call fails without progress", ruleIterProgress},
@@ -170,6 +171,7 @@ func init() {
 			{"prefix-append", "no append of new elements to a prefix of a slice whose tail is still needed", rulePrefixAppend},
 			{"grid-bound", "index and slice bounds on t.Grid.Cols follow from the dominating comparisons (difference-bound proof per use)", ruleGridBound},
 			{"col-all-rows", "column insertions/deletions rewrite every row (no skipping iteration in the loop over t.Rows)", ruleColAllRows},
+			{"sized-by-row", "a slice sized by one row's cell count is not indexed by a counter over another row's cells without a guard", ruleSizedByRow},
 			{"delete-content-pure", "row/column deletions never store into the paragraphs or nested tables of a remaining cell", ruleDeleteContentPure},
 		},
 		Assumptions: commonAssumptions,
